@@ -80,30 +80,139 @@ def radius_of(rho, scale):
     return math.sqrt(num / den) / scale
 
 
-def build(inp, scale, variant):
-    """Create the real CellList for a spec input. variant picks dtype / container."""
+# --------------------------------------------------------------------------- the caller's arrays
+# Kind names are the ones of the specification (CellGridOps: CoordKindSeq, RadiiKindSeq,
+# SelKindSeq); which kinds exist, which are integer kinds and which may be refused is read from
+# TLC's output, never listed here.  make_array only knows how to BUILD an array of a given kind.
+def _dtype_of(kind):
+    import numpy as np
+
+    return {"f4": np.float32, "f8": np.float64, "i8": np.int64, "i4": np.int32, "b": np.bool_}[kind[:2] if kind[0] != "b" else "b"]
+
+
+def make_array(values, kind):
+    """The caller's array of the given kind holding `values` (nested list, 1-D or 2-D).
+    Returns (array handed to biotite, array that owns the memory)."""
+    import numpy as np
+
+    dt = _dtype_of(kind)
+    a = np.array(values, dtype=dt)
+    form = kind[1:] if kind[0] == "b" else kind[2:]
+    fill = False if dt is np.bool_ else 77
+    if form == "":
+        return a, a
+    if form == "ro":
+        a.flags.writeable = False
+        return a, a
+    if form == "F":
+        a = np.asfortranarray(a)
+        return a, a
+    if form in ("rows", "strided"):
+        big = np.full((2 * a.shape[0],) + a.shape[1:], fill, dtype=dt)
+        big[::2] = a
+        return big[::2], big
+    if form == "cols":
+        big = np.full((a.shape[0], 2 * a.shape[1]), fill, dtype=dt)
+        big[:, ::2] = a
+        return big[:, ::2], big
+    if form == "rev":
+        if a.ndim == 2:
+            big = a[::-1, ::-1].copy()
+            return big[::-1, ::-1], big
+        big = a[::-1].copy()
+        return big[::-1], big
+    raise ValueError(kind)
+
+
+def cell_radii_array(values, radii_kind):
+    """Per-query cell radii: an integer array in the memory form of the radii kind (int32 = the
+    element type the cell list works in for the float32 kinds, int64 otherwise; always writable)."""
+    form = radii_kind[2:]
+    return make_array(values, ("i4" if radii_kind.startswith("f4") else "i8") + (form if form in ("strided", "rev") else ""))
+
+
+class Held:
+    """An argument object of the caller together with a snapshot of the memory that backs it."""
+
+    def __init__(self, name, arr, owner):
+        self.name, self.arr, self.owner = name, arr, owner
+        self.snapshot = owner.copy()
+
+    def changed(self):
+        import numpy as np
+
+        return not np.array_equal(self.owner, self.snapshot)
+
+
+def changed_names(held, resnap=False):
+    """Names of the caller's arrays whose memory differs from the snapshot (resnap: take a new
+    snapshot of those, so that a later call is charged only with what it changed itself)."""
+    out = []
+    for h in held:
+        if h is not None and h.changed():
+            out.append(h.name)
+            if resnap:
+                h.snapshot = h.owner.copy()
+    return out
+
+
+LEGACY_KINDS = {0: ("f4", "f4", "f4", "b", "f4"), 1: ("f8", "f8", "f8", "b", "f8")}
+
+
+def scaled(values, scale, kind):
+    """Ticks -> the numbers the array holds (integers stay integers for the integer kinds)."""
+    import numpy as np
+
+    if kind[0] == "i":
+        assert scale == 1, "Dom_KindValues: integer kinds need integer values"
+        return values
+    return (np.array(values, dtype=np.float64) / scale).tolist()
+
+
+def build(inp, scale, variant, kinds=None, form=None, held=None):
+    """Create the real CellList for a spec input.
+    kinds = (coordinates, queries, radii, selection, box) kinds of the caller's arrays (default:
+    float32 / float64 C-contiguous by variant); form = construction form of the specification
+    <<container, own, explicit, periodic>> (default: ndarray + box= or, for variant % 3 == 2, an
+    AtomArray with its own box).  The caller's arrays are appended to `held`.
+    Returns (cell list, dtype of plain query arrays)."""
     import numpy as np
     import biotite.structure as struc
 
     atoms, cs, box, sel = inp
+    if kinds is None:
+        kinds = LEGACY_KINDS[variant % 2]
+    if form is None:
+        if variant % 3 == 2:
+            form = ["aa", box, [], bool(box)]
+        else:
+            form = ["nd", [], box, bool(box)]
+    container, own, explicit, periodic = form
+    if held is None:
+        held = []
     dt = np.float32 if variant % 2 == 0 else np.float64
-    coord = np.array(atoms, dtype=dt) / scale
+    coord, cown = make_array(scaled(atoms, scale, kinds[0]), kinds[0])
+    held.append(Held("coord", coord, cown))
     kw = {}
-    bx = None
-    if box:
-        bx = np.array(box[0], dtype=dt) / scale
     if sel:
-        kw["selection"] = np.array(sel[0], dtype=bool)
+        sa, sown = make_array(sel[0], kinds[3])
+        held.append(Held("selection", sa, sown))
+        kw["selection"] = sa
+    if explicit:
+        ba, bown = make_array(scaled(explicit[0], scale, kinds[4]), kinds[4])
+        held.append(Held("box", ba, bown))
+        kw["box"] = ba
+    if periodic:
+        kw["periodic"] = True
     cell_size = cs[0] / cs[1] / scale
-    if variant % 3 == 2:
+    if container == "aa":
         arr = struc.AtomArray(len(atoms))
-        arr.coord = coord.astype(np.float32)
-        if bx is not None:
-            arr.box = bx.astype(np.float32)
-            return struc.CellList(arr, cell_size, periodic=True, **kw), coord.dtype
-        return struc.CellList(arr, cell_size, **kw), coord.dtype
-    if bx is not None:
-        return struc.CellList(coord, cell_size, periodic=True, box=bx, **kw), dt
+        arr.coord = coord           # float32 kinds: the AtomArray keeps the caller's memory
+        if own:
+            oa, oown = make_array(scaled(own[0], scale, kinds[4]), kinds[4])
+            held.append(Held("own_box", oa, oown))
+            arr.box = oa
+        return struc.CellList(arr, cell_size, **kw), dt
     return struc.CellList(coord, cell_size, **kw), dt
 
 
@@ -186,8 +295,12 @@ def threshold_rows(dist, rad, selmask):
     return [np.nonzero(row)[0].tolist() for row in m]
 
 
-def check_input(inp, res, C, scale, variant, light):
-    """Run every call the spec predicted for this input. Returns (mismatches, ncalls, diag)."""
+def check_input(inp, res, C, scale, variant, light, kinds=None):
+    """Run every call the spec predicted for this input. Returns (mismatches, ncalls, diag).
+    One set of argument objects (query array, per-query radii arrays, cell radii array) of the
+    given kinds serves all calls on the cell list; after every call the arrays it was given, and
+    at the end the arrays the cell list was constructed from, are compared with their snapshots
+    (ArgsAfter of the specification: every call leaves the caller's arrays as they are)."""
     import numpy as np
 
     from harness.tlabind.pool import progress
@@ -199,18 +312,35 @@ def check_input(inp, res, C, scale, variant, light):
     mism = []
     calls = 0
     diag_cells = 0
-    progress({"inp": inp, "scale": scale, "variant": variant, "call": "construct"})
-    cl, dt = build(inp, scale, variant)
-    qarr = np.array(Q, dtype=dt) / scale
+    if kinds is None:
+        kinds = LEGACY_KINDS[variant % 2]
+    progress({"inp": inp, "scale": scale, "variant": variant, "kinds": kinds, "call": "construct"})
+    con_held = []
+    cl, dt = build(inp, scale, variant, kinds=kinds, held=con_held)
+    hq = Held("coord_query", *make_array(scaled(Q, scale, kinds[1]), kinds[1]))
+    qarr = hq.arr
+    hrads = [Held("radius", *make_array([radius_of(R[(j + 1 + shift) % len(R)], scale) for j in range(nq)], kinds[2]))
+             for shift in MS]
+    hcells = [Held("cell_radius", *cell_radii_array([cr] * nq, kinds[2])) for cr in CR]
     selbits = (1 << n) - 1 if not inp[3] else sum(1 << k for k, b in enumerate(inp[3][0]) if b)
 
     def rec(call, j, exp, got, extra=None):
-        m = {"kind": "query", "call": call, "inp": inp, "scale": scale, "variant": variant,
+        m = {"kind": "query", "what": call, "call": call, "inp": inp, "scale": scale, "variant": variant, "kinds": list(kinds),
              "query": None if j is None else Q[j], "expected": bits_to_list(exp) if isinstance(exp, int) else exp,
              "observed": bits_to_list(got) if isinstance(got, int) else got}
         if extra:
             m.update(extra)
         mism.append(m)
+
+    reported = set()
+
+    def frame(call, held, extra=None):
+        """ArgsAfter: the arrays handed to the call hold the values they held before."""
+        for name in changed_names(held):
+            if name not in reported:      # one record per array is enough
+                reported.add(name)
+                rec("callers_array_changed", None, f"{name} unchanged by {call}", f"{name} changed by {call}",
+                    dict(extra or {}, array=name, by=call))
 
     def compare(call, exp_row, got_row, note, extra=None):
         if note:
@@ -235,14 +365,15 @@ def check_input(inp, res, C, scale, variant, light):
             got, note = rows_to_bits(cl.get_atoms(qarr, rad, as_mask=as_mask), as_mask, n)
             calls += 1
             compare("get_atoms", exp, got, note, {"rho": rho, "as_mask": as_mask, "batched": True})
-        # per-query radii
+            frame("get_atoms", [hq], {"rho": rho, "as_mask": as_mask})
+        # per-query radii: the same radii array object serves the index and the mask call
         for s, shift in enumerate(MS):
-            rads = np.array([radius_of(R[(j + 1 + shift) % len(R)], scale) for j in range(nq)], dtype=dt)
             exp = unpack_row(multi_p[s], nq)
-            progress({"inp": inp, "scale": scale, "variant": variant, "call": "get_atoms_multi", "shift": shift, "as_mask": as_mask})
-            got, note = rows_to_bits(cl.get_atoms(qarr, rads, as_mask=as_mask), as_mask, n)
+            progress({"inp": inp, "scale": scale, "variant": variant, "kinds": kinds, "call": "get_atoms_multi", "shift": shift, "as_mask": as_mask})
+            got, note = rows_to_bits(cl.get_atoms(qarr, hrads[s].arr, as_mask=as_mask), as_mask, n)
             calls += 1
             compare("get_atoms_multi", exp, got, note, {"shift": shift, "as_mask": as_mask})
+            frame("get_atoms_multi", [hq, hrads[s]], {"shift": shift, "as_mask": as_mask})
         # cell queries: superset of must, subset of the selection; implementation-shaped
         # prediction only as a diagnostic
         for c, cr in enumerate(CR):
@@ -252,8 +383,9 @@ def check_input(inp, res, C, scale, variant, light):
             if c % 2 == 0:
                 got, note = rows_to_bits(cl.get_atoms_in_cells(qarr, cr, as_mask=as_mask), as_mask, n)
             else:
-                got, note = rows_to_bits(cl.get_atoms_in_cells(qarr, np.full(nq, cr, dtype=np.int32), as_mask=as_mask), as_mask, n)
+                got, note = rows_to_bits(cl.get_atoms_in_cells(qarr, hcells[c].arr, as_mask=as_mask), as_mask, n)
             calls += 1
+            frame("get_atoms_in_cells", [hq, hcells[c]], {"c": cr, "as_mask": as_mask})
             if note:
                 rec("get_atoms_in_cells", None, "well-formed result", note, {"c": cr, "as_mask": as_mask})
                 continue
@@ -272,6 +404,7 @@ def check_input(inp, res, C, scale, variant, light):
             progress({"inp": inp, "scale": scale, "variant": variant, "call": "get_atoms_single", "rho": rho, "q": Q[j], "as_mask": as_mask})
             out = cl.get_atoms(qarr[j], radius_of(rho, scale), as_mask=as_mask)
             calls += 1
+            frame("get_atoms_single", [hq], {"rho": rho, "as_mask": as_mask})
             if np.asarray(out).ndim != 1:
                 rec("get_atoms_single", j, "1-D result", f"shape {np.asarray(out).shape}", {"rho": rho, "as_mask": as_mask})
                 continue
@@ -293,6 +426,8 @@ def check_input(inp, res, C, scale, variant, light):
             rec("create_adjacency_matrix", None, [bits_to_list(b) for b in adj[r]], [bits_to_list(b) for b in got], {"rho": rho})
         elif not (m == m.T).all():
             rec("create_adjacency_matrix", None, "symmetric", "asymmetric", {"rho": rho})
+    # the arrays the cell list was made from (coordinates, box, selection) after all calls
+    frame("the calls on the cell list", con_held + [hq] + hrads + hcells)
     # the pairwise distance matrix of the library's own distance functions: its entries are
     # the spec's squared distances and, thresholded (and restricted to the selection), it is
     # the adjacency matrix.  For a box outside Dom_Images8 (pair_exact false) entries may be
@@ -333,6 +468,17 @@ def warmup():
             _CONST.update(json.load(f))      # {"grid": [Q, R, CR, MS], "few": [QP, R, CR, MS]}
 
 
+def kinds_for(idx, scale, K):
+    """The kinds of the caller's arrays for the idx-th input of the exhaustive families: every kind
+    of the specification that must be served (not in RefusableKinds) and can hold the values
+    (Dom_KindValues: integer kinds only for integer ticks, never for the radii, which include
+    irrational ones), cycled so that all pairs (coordinate kind, query kind) occur."""
+    ck = [k for k, i, r in zip(K["coord"], K["coord_int"], K["coord_refusable"]) if not r and (scale == 1 or not i)]
+    rk = [k for k, i, r in zip(K["radii"], K["radii_int"], K["radii_refusable"]) if not r and not i]
+    a = len(ck)
+    return [ck[idx % a], ck[(idx + idx // a) % a], rk[(idx // 2) % len(rk)], K["sel"][0], ck[(idx * 5 + 2) % a]]
+
+
 def exec_group(item):
     """S2 pool item: a slice of the dumped states (stored in the item's own file)."""
     warmup()
@@ -341,19 +487,186 @@ def exec_group(item):
     mism = []
     calls = 0
     diag = 0
+    used = {}
     for k, (inp, res, tag) in enumerate(states):
         idx = item["lo"] + k
         scale = SCALES[idx % len(SCALES)]
+        kinds = kinds_for(idx, scale, _CONST["kinds"])
+        for pos, kd in enumerate(kinds):
+            used[f"{pos}:{kd}"] = used.get(f"{pos}:{kd}", 0) + 1
         try:
-            m, c, d = check_input(inp, res, _CONST[tag], scale, idx, item["light"] and tag == "grid")
+            m, c, d = check_input(inp, res, _CONST[tag], scale, idx, item["light"] and tag == "grid", kinds)
         except Exception as e:      # a public call raised on a well-formed input
             if not _from_biotite(e):
                 raise
-            m, c, d = [{"kind": "exception", "inp": inp, "scale": scale, "variant": idx, "error": repr(e)}], 0, 0
+            m, c, d = [{"kind": "exception", "inp": inp, "scale": scale, "variant": idx, "kinds": kinds, "error": repr(e)}], 0, 0
         mism += m
         calls += c
         diag += d
-    return {"mismatch": mism, "calls": calls, "diag_cells": diag, "inputs": len(states)}
+    return {"mismatch": mism, "calls": calls, "diag_cells": diag, "inputs": len(states), "kinds_used": used}
+
+
+# --------------------------------------------------------------------------- S2: sessions
+SESSION_CALLS = {
+    # op of the specification -> (method, per-query argument, as_mask)
+    "near": ("get_atoms", None, False), "near_mask": ("get_atoms", None, True),
+    "multi": ("get_atoms", "rho", False), "multi_mask": ("get_atoms", "rho", True),
+    "single": ("get_atoms", "single", False),
+    "cells": ("get_atoms_in_cells", None, False), "cells_multi_mask": ("get_atoms_in_cells", "cells", True),
+    "adj": ("create_adjacency_matrix", None, True),
+}
+
+
+def _call_outcome(fn):
+    """('ok', result) or ('Rejected', repr) when the library raised; driver errors propagate."""
+    try:
+        return "ok", fn()
+    except Exception as e:
+        if not _from_biotite(e):
+            raise
+        return "Rejected", repr(e)
+
+
+def run_session(case, con, args, hist, res, idx):
+    """One complete history of the session model against the real CellList: one cell list, one
+    set of argument objects for all calls.  Returns (mismatch records, calls made, outcomes)."""
+    import numpy as np
+
+    from harness.tlabind.pool import progress
+
+    atoms, cs, sel, form, kinds = case
+    Q, rhos, r0, cells, c0 = args
+    n = len(atoms)
+    int_kind = any(kinds[i][0] == "i" for i in (0, 1, 2, 4))
+    scale = 1 if int_kind else SCALES[idx % len(SCALES)]
+    selbits = (1 << n) - 1 if not sel else sum(1 << k for k, b in enumerate(sel[0]) if b)
+    mism = []
+    base = {"kind": "session", "case": case, "con": con, "args": args, "hist": hist, "res": res, "scale": scale, "idx": idx}
+
+    def rec(what, pos, exp, got, **extra):
+        mism.append(dict(base, what=what, position=pos, expected=exp, observed=got, **extra))
+
+    progress(dict(base, call="construct"))
+    held = []
+    oc, cl = _call_outcome(lambda: build([atoms, cs, [], sel], scale, 0, kinds=kinds, form=form, held=held)[0])
+    if oc != con[0] and not (con[0] == "ok" and con[1]):
+        rec("construction_outcome", 0, con[0], oc, detail=cl if oc == "Rejected" else None)
+    for name in changed_names(held):
+        rec("callers_array_changed", 0, f"{name} unchanged by the constructor", f"{name} changed", array=name)
+    if oc != "ok" or con[0] != "ok":
+        return mism, 0, {"construct_" + oc: 1}
+    hq = Held("coord_query", *make_array(scaled(Q, scale, kinds[1]), kinds[1]))
+    hr = Held("radius", *make_array([radius_of(r, scale) if kinds[2][0] != "i" else int(radius_of(r, scale)) for r in rhos], kinds[2]))
+    hc = Held("cell_radius", *cell_radii_array(cells, kinds[2]))
+    held += [hq, hr, hc]
+    outcomes = {"construct_ok": 1}
+    reported = set()
+    ncalls = 0
+    for pos, (op, (exp, relation, may_refuse)) in enumerate(zip(hist, res), start=1):
+        method, per_query, as_mask = SESSION_CALLS[op]
+        progress(dict(base, call=op, position=pos))
+        if method == "create_adjacency_matrix":
+            oc, out = _call_outcome(lambda: cl.create_adjacency_matrix(radius_of(r0, scale)))
+        elif method == "get_atoms":
+            if per_query == "single":
+                oc, out = _call_outcome(lambda: cl.get_atoms(hq.arr[0], radius_of(r0, scale), as_mask=as_mask))
+            elif per_query == "rho":
+                oc, out = _call_outcome(lambda: cl.get_atoms(hq.arr, hr.arr, as_mask=as_mask))
+            else:
+                oc, out = _call_outcome(lambda: cl.get_atoms(hq.arr, radius_of(r0, scale), as_mask=as_mask))
+        else:
+            if per_query == "cells":
+                oc, out = _call_outcome(lambda: cl.get_atoms_in_cells(hq.arr, hc.arr, as_mask=as_mask))
+            else:
+                oc, out = _call_outcome(lambda: cl.get_atoms_in_cells(hq.arr, c0, as_mask=as_mask))
+        ncalls += 1
+        outcomes[op + "_" + oc] = outcomes.get(op + "_" + oc, 0) + 1
+        for name in changed_names(held):
+            if name not in reported:
+                reported.add(name)
+                rec("callers_array_changed", pos, f"{name} unchanged by {op}", f"{name} changed", array=name, op=op)
+        if oc != "ok":
+            if not may_refuse:
+                rec("call_outcome", pos, "ok", oc, op=op, detail=out)
+            continue
+        out = np.asarray(out)
+        if per_query == "single":
+            if out.ndim != 1:
+                rec("answer", pos, "1-D result", f"shape {out.shape}", op=op)
+                continue
+            out = out[np.newaxis, :]
+        got, note = rows_to_bits(out, as_mask, n)
+        if note or len(got) != len(exp):
+            rec("answer", pos, "well-formed result", note or f"{len(got)} rows", op=op)
+        elif relation == "equals":
+            if got != exp:
+                rec("answer", pos, [bits_to_list(b) for b in exp], [bits_to_list(b) for b in got], op=op, relation=relation)
+        elif any((e & ~g) or (g & ~selbits) for e, g in zip(exp, got)):
+            rec("answer", pos, [bits_to_list(b) for b in exp], [bits_to_list(b) for b in got], op=op,
+                relation="expected <= observed <= selection")
+    return mism, ncalls, outcomes
+
+
+def parse_session_dump(path):
+    """Complete histories of the CellSession model: [case, con, args, hist, res]."""
+    out = []
+    with open(path) as f:
+        blob = f.read()
+    for block in re.split(r"^State \d+:\n", blob, flags=re.M):
+        if not block.strip():
+            continue
+        v = {m.group(1): tla_to_py(m.group(2)) for m in re.finditer(r"/\\ (\w+) = (.*?)(?=\n/\\ |\Z)", block.strip(), flags=re.S)}
+        out.append([v["sesCase"], v["sesCon"], v["sesArgs"], v["sesHist"], v["sesRes"]])
+    return out
+
+
+def exec_sessions(item):
+    """S2 pool item: a slice of the complete histories."""
+    warmup()
+    with open(item["file"]) as f:
+        sessions = json.load(f)
+    mism = []
+    calls = 0
+    outcomes = {}
+    for k, (case, con, args, hist, res) in enumerate(sessions):
+        m, c, oc = run_session(case, con, args, hist, res, item["lo"] + k)
+        mism += m
+        calls += c
+        for key, v in oc.items():
+            outcomes[key] = outcomes.get(key, 0) + v
+    return {"mismatch": mism, "calls": calls, "sessions": len(sessions), "outcomes": outcomes}
+
+
+STAGE_OF = {"group": "S2", "sessions": "S2-session", "trace": "S3"}
+
+
+def exec_item(item):
+    """Pool target: dispatches on the type of the item."""
+    if item["type"] == "group":
+        return exec_group(item)
+    if item["type"] == "sessions":
+        return exec_sessions(item)
+    return gen_trace(item)
+
+
+def run_items(ctx, items, env):
+    """helpers.run_pool for items of mixed type (the stage of a record is the stage of its item)."""
+    from harness.tlabind import pool
+
+    results = pool.run_isolated("harness.drivers.c14:exec_item", items, env=env, item_timeout=600, procs=16)
+    for it, r in zip(items, results):
+        stage = STAGE_OF[it["type"]]
+        if r is None:
+            raise RuntimeError(f"{stage}: missing result")
+        if "driver_error" in r:
+            raise RuntimeError(f"{stage}: driver error {r['driver_error']}\n{r.get('tb', '')}")
+        if "crash" in r:
+            ctx.mismatch({"stage": stage, "kind": "crash", "signal": r["crash"], "progress": r.get("progress"), "item": it})
+            continue
+        for mm in r.get("mismatch", ()):
+            mm.setdefault("stage", stage)
+            ctx.mismatch(mm)
+    return results
 
 
 # --------------------------------------------------------------------------- S3 recording
@@ -411,21 +724,50 @@ def _guarded(fn):
     return wrapper
 
 
+def eff_box(form):
+    """The box the driver hands to the library's distance functions for a construction form.  It
+    is recorded as box_used and TLC requires it to be EffBox(form) of the specification."""
+    _container, own, explicit, periodic = form
+    if not periodic:
+        return []
+    return explicit if explicit else own
+
+
 @_guarded
 def gen_trace(item):
-    """Build a seeded system, run the real CellList, log the calls."""
+    """Build a seeded system, run the real CellList, log the calls.  A trace is a session: the
+    construction form and the kinds of the caller's arrays are drawn at random, argument arrays
+    are kept and used again by later calls, and after every call all arrays of the session are
+    compared with their snapshots."""
     import numpy as np
 
     from harness.tlabind.pool import progress
 
+    warmup()
+    K = _CONST["kinds"]
     rng = random.Random(item["seed"])
     scale = rng.choice([1, 2, 2, 4])
-    periodic = rng.random() < 0.45
     nmax = item["nmax"]
     n = rng.choice([1, 2, 3, 5, 8, 13, 21, 34, nmax][: 9 if nmax >= 34 else 6])
     n = min(n, nmax)
     shape = rng.choice(["cloud", "cluster", "line", "dups", "plane"])
+    # construction form: container, own box of the AtomArray, box= parameter, periodic flag
+    container = rng.choice(["nd", "aa"])
+    periodic = rng.random() < 0.5
+    own = [rng.choice(BOXES)] if container == "aa" and rng.random() < 0.6 else []
+    explicit = [rng.choice(BOXES)] if rng.random() < (0.55 if periodic else 0.25) else []
+    if periodic and not own and not explicit and rng.random() < 0.9:
+        explicit = [rng.choice(BOXES)]          # (a periodic list without any box must be refused: kept rare)
+    form = [container, own, explicit, periodic]
     lo, hi = (-3, 9) if not periodic else (-6, 12)
+
+    def pick_kind(names, ints, refusable, int_ok):
+        cand = [k for k, i, r in zip(names, ints, refusable) if (int_ok or not i) and (not r or rng.random() < 0.08)]
+        return rng.choice(cand)
+
+    def coord_kind():
+        return pick_kind(K["coord"], K["coord_int"], K["coord_refusable"], scale == 1)
+
     pts = []
     c0 = [rng.randint(lo, hi) for _ in range(3)]
     d0 = rng.choice([[1, 0, 0], [0, 1, 0], [1, 1, 0], [1, 2, -1], [0, 0, 2]])
@@ -443,18 +785,28 @@ def gen_trace(item):
             p = pts[rng.randrange(len(pts))][:] if pts and rng.random() < 0.6 else [rng.randint(lo, hi) for _ in range(3)]
         pts.append(p)
     cs = rng.choice(CELLS)
-    box = [rng.choice(BOXES)] if periodic else []
     sel = []
     if rng.random() < 0.35 and n >= 2:
         m = [rng.random() < 0.6 for _ in range(n)]
         if not any(m):
             m[rng.randrange(n)] = True
         sel = [m]
+    kinds = [coord_kind(), "f4", "f4", pick_kind(K["sel"], K["sel_int"], K["sel_refusable"], False), coord_kind()]
+    box = eff_box(form)
     inp = [pts, cs, box, sel]
     variant = rng.randrange(6)
-    events = [{"op": "construct", "atoms": pts, "cs": cs, "box": box, "sel": sel, "scale": scale, "variant": variant}]
-    progress({"inp": inp, "scale": scale, "variant": variant, "call": "construct"})
-    cl, dt = build(inp, scale, variant)
+    con = {"op": "construct", "atoms": pts, "cs": cs, "sel": sel, "container": container, "own": own, "box": explicit,
+           "periodic": periodic, "form": form, "kinds": kinds, "scale": scale, "variant": variant}
+    events = [con]
+    progress({"inp": inp, "form": form, "kinds": kinds, "scale": scale, "variant": variant, "call": "construct"})
+    held = []
+    oc, cl = _call_outcome(lambda: build([pts, cs, [], sel], scale, variant, kinds=kinds, form=form, held=held))
+    con["out"] = oc
+    con["changed"] = changed_names(held)
+    if oc != "ok":
+        con["error"] = cl
+        return {"events": events}
+    cl, dt = cl
 
     def rand_q():
         k = rng.random()
@@ -466,6 +818,41 @@ def gen_trace(item):
         if k < 0.9:
             return [rng.choice([-40, 55, 0, 3]) for _ in range(3)]
         return pts[rng.randrange(n)][:]
+
+    # argument objects of the session: query arrays, each with radii / cell radii arrays of its length
+    pool_q = []
+
+    def query_object():
+        if pool_q and rng.random() < 0.55:
+            return rng.choice(pool_q)
+        vals = [rand_q() for _ in range(rng.randint(1, 8))]
+        kind = coord_kind()
+        ent = {"q": vals, "kind": kind, "held": Held("coord_query", *make_array(scaled(vals, scale, kind), kind)), "rads": [], "cells": []}
+        held.append(ent["held"])
+        if len(pool_q) < 3:
+            pool_q.append(ent)
+        return ent
+
+    def radii_object(ent):
+        if ent["rads"] and rng.random() < 0.6:
+            return rng.choice(ent["rads"])
+        rho = [_rand_rho(rng, True) for _ in ent["q"]]
+        kind = pick_kind(K["radii"], K["radii_int"], K["radii_refusable"], scale == 1 and all(r[1] == 1 for r in rho))
+        vals = [int(radius_of(r, scale)) if kind[0] == "i" else radius_of(r, scale) for r in rho]
+        ro = {"rho": rho, "kind": kind, "held": Held("radius", *make_array(vals, kind))}
+        held.append(ro["held"])
+        ent["rads"].append(ro)
+        return ro
+
+    def cells_object(ent):
+        if ent["cells"] and rng.random() < 0.6:
+            return rng.choice(ent["cells"])
+        c = [rng.randint(0, 3) for _ in ent["q"]]
+        kind = rng.choice([k for k, i in zip(K["radii"], K["radii_int"]) if not i and not k.endswith("ro")])
+        co = {"c": c, "kind": kind, "held": Held("cell_radius", *cell_radii_array(c, kind))}
+        held.append(co["held"])
+        ent["cells"].append(co)
+        return co
 
     def idx_rows(res, as_mask, single):
         res = np.asarray(res)
@@ -479,64 +866,77 @@ def gen_trace(item):
                 rows.append(sorted(set(v for v in row.tolist() if v != -1)))
         return rows
 
+    def finish(ev, oc, out, as_mask=False, single=False):
+        ev["out"] = oc
+        ev["changed"] = changed_names(held, resnap=True)
+        ev["got"] = idx_rows(out, as_mask, single) if oc == "ok" else []
+        if oc != "ok":
+            ev["error"] = out
+        events.append(ev)
+
     for _ in range(item["length"]):
-      try:
-          k = rng.random()
-          as_mask = rng.random() < 0.4
-          if k < 0.55:
-              single = rng.random() < 0.25
-              m = 1 if single else rng.randint(1, 8)
-              q = [rand_q() for _ in range(m)]
-              multi = (not single) and rng.random() < 0.5
-              rho = [_rand_rho(rng, True) for _ in range(m)] if multi else [_rand_rho(rng, True)] * m
-              qa = np.array(q, dtype=dt) / scale
-              progress({"inp": inp, "scale": scale, "variant": variant, "call": "get_atoms", "q": q, "rho": rho})
-              if single:
-                  out = cl.get_atoms(qa[0], radius_of(rho[0], scale), as_mask=as_mask)
-              elif multi:
-                  out = cl.get_atoms(qa, np.array([radius_of(r, scale) for r in rho], dtype=dt), as_mask=as_mask)
-              else:
-                  out = cl.get_atoms(qa, radius_of(rho[0], scale), as_mask=as_mask)
-              events.append({"op": "get_atoms", "q": q, "rho": rho, "got": idx_rows(out, as_mask, single),
-                             "as_mask": as_mask, "single": single, "multi": multi})
-          elif k < 0.85:
-              single = rng.random() < 0.25
-              m = 1 if single else rng.randint(1, 8)
-              q = [rand_q() for _ in range(m)]
-              multi = (not single) and rng.random() < 0.5
-              c = [rng.randint(0, 3) for _ in range(m)] if multi else [rng.randint(0, 3)] * m
-              qa = np.array(q, dtype=dt) / scale
-              progress({"inp": inp, "scale": scale, "variant": variant, "call": "get_atoms_in_cells", "q": q, "c": c})
-              if single:
-                  out = cl.get_atoms_in_cells(qa[0], c[0], as_mask=as_mask)
-              elif multi:
-                  out = cl.get_atoms_in_cells(qa, np.array(c, dtype=np.int32), as_mask=as_mask)
-              else:
-                  out = cl.get_atoms_in_cells(qa, c[0], as_mask=as_mask)
-              events.append({"op": "cells", "q": q, "c": c, "got": idx_rows(out, as_mask, single),
-                             "as_mask": as_mask, "single": single, "multi": multi})
-          elif k < 0.93:
-              rho = _rand_rho(rng, False)
-              progress({"inp": inp, "scale": scale, "variant": variant, "call": "create_adjacency_matrix", "rho": rho})
-              m = cl.create_adjacency_matrix(radius_of(rho, scale))
-              events.append({"op": "adjacency", "rho": rho, "got": [np.nonzero(row)[0].tolist() for row in m]})
-          else:
-              # the library's own pairwise distance matrix: entries (projected to integer squared
-              # distances, -1 = not a lattice distance) and its thresholded form
-              form = rng.choice(PAIR_FORMS)
-              rho = _rand_rho(rng, False)
-              progress({"inp": inp, "scale": scale, "variant": variant, "call": "pair_distance", "form": form, "rho": rho})
-              dist = pair_distance_matrix(inp, scale, variant, form)
-              d2 = project_d2(dist, scale)
-              prs = [[rng.randrange(n), rng.randrange(n)] for _ in range(min(n * n, 40))]
-              events.append({"op": "pairdist", "pairs": prs, "got": [int(d2[a][b]) for a, b in prs], "form": form})
-              selmask = np.array(sel[0], dtype=bool) if sel else np.ones(n, dtype=bool)
-              events.append({"op": "distadj", "rho": rho, "got": threshold_rows(dist, radius_of(rho, scale), selmask), "form": form})
-      except Exception as e:      # a public call raised on a well-formed input
-        if not _from_biotite(e):
-            raise
-        return {"events": events, "mismatch": [{"kind": "exception", "stage": "S3", "inp": inp, "scale": scale,
-                                                "variant": variant, "error": repr(e)}]}
+        k = rng.random()
+        as_mask = rng.random() < 0.4
+        if k < 0.55:
+            ent = query_object()
+            single = rng.random() < 0.25
+            multi = (not single) and rng.random() < 0.5
+            m = 1 if single else len(ent["q"])
+            q = ent["q"][:m]
+            qa = ent["held"].arr
+            ev = {"op": "get_atoms", "q": q, "as_mask": as_mask, "single": single, "multi": multi, "qk": ent["kind"], "rk": "f4"}
+            progress({"inp": inp, "form": form, "kinds": kinds, "scale": scale, "variant": variant, "call": "get_atoms", "event": ev})
+            if multi:
+                ro = radii_object(ent)
+                ev.update(rho=ro["rho"], rk=ro["kind"])
+                oc, out = _call_outcome(lambda: cl.get_atoms(qa, ro["held"].arr, as_mask=as_mask))
+            else:
+                rho = _rand_rho(rng, True)
+                ev["rho"] = [rho] * m
+                oc, out = _call_outcome(lambda: cl.get_atoms(qa[0] if single else qa, radius_of(rho, scale), as_mask=as_mask))
+            finish(ev, oc, out, as_mask, single)
+        elif k < 0.85:
+            ent = query_object()
+            single = rng.random() < 0.25
+            multi = (not single) and rng.random() < 0.5
+            m = 1 if single else len(ent["q"])
+            qa = ent["held"].arr
+            ev = {"op": "cells", "q": ent["q"][:m], "as_mask": as_mask, "single": single, "multi": multi, "qk": ent["kind"], "rk": "f4"}
+            progress({"inp": inp, "form": form, "kinds": kinds, "scale": scale, "variant": variant, "call": "get_atoms_in_cells", "event": ev})
+            if multi:
+                co = cells_object(ent)
+                ev.update(c=co["c"], rk=co["kind"])
+                oc, out = _call_outcome(lambda: cl.get_atoms_in_cells(qa, co["held"].arr, as_mask=as_mask))
+            else:
+                c = rng.randint(0, 3)
+                ev["c"] = [c] * m
+                oc, out = _call_outcome(lambda: cl.get_atoms_in_cells(qa[0] if single else qa, c, as_mask=as_mask))
+            finish(ev, oc, out, as_mask, single)
+        elif k < 0.93:
+            rho = _rand_rho(rng, False)
+            ev = {"op": "adjacency", "rho": rho, "qk": "f4", "rk": "f4"}
+            progress({"inp": inp, "form": form, "kinds": kinds, "scale": scale, "variant": variant, "call": "create_adjacency_matrix", "rho": rho})
+            oc, out = _call_outcome(lambda: cl.create_adjacency_matrix(radius_of(rho, scale)))
+            finish(ev, oc, out, True, False)
+        else:
+            # the library's own pairwise distance matrix: entries (projected to integer squared
+            # distances, -1 = not a lattice distance) and its thresholded form
+            pform = rng.choice(PAIR_FORMS)
+            rho = _rand_rho(rng, False)
+            progress({"inp": inp, "form": form, "scale": scale, "variant": variant, "call": "pair_distance", "pform": pform, "rho": rho})
+            try:
+                dist = pair_distance_matrix(inp, scale, variant, pform)
+            except Exception as e:      # a public call raised on a well-formed input
+                if not _from_biotite(e):
+                    raise
+                return {"events": events, "mismatch": [{"kind": "exception", "stage": "S3", "inp": inp, "scale": scale,
+                                                        "variant": variant, "error": repr(e)}]}
+            d2 = project_d2(dist, scale)
+            prs = [[rng.randrange(n), rng.randrange(n)] for _ in range(min(n * n, 40))]
+            common = {"form": pform, "box_used": box, "qk": "f4", "rk": "f4", "out": "ok", "changed": changed_names(held, resnap=True)}
+            events.append(dict(common, op="pairdist", pairs=prs, got=[int(d2[a][b]) for a, b in prs]))
+            selmask = np.array(sel[0], dtype=bool) if sel else np.ones(n, dtype=bool)
+            events.append(dict(common, op="distadj", rho=rho, got=threshold_rows(dist, radius_of(rho, scale), selmask)))
     return {"events": events}
 
 
@@ -549,20 +949,35 @@ def replay(record):
     """Re-execute one stored mismatch against the current code."""
     import numpy as np
 
+    if record.get("kind") == "session":
+        # the whole history again: one cell list, one set of argument objects
+        case, args, hist = record["case"], record["args"], record["hist"]
+        if "res" not in record:
+            return {"error": "session record without the expected answers; rerun the check", "record": record}
+        mism, ncalls, outcomes = run_session(case, record["con"], args, hist, record["res"], record["idx"])
+        return {"mismatch": bool(mism), "calls": ncalls, "outcomes": outcomes, "disagreements": mism[:5]}
     if record.get("kind") == "query":
         inp, scale, variant = record["inp"], record["scale"], record["variant"]
-        cl, dt = build(inp, scale, variant)
+        kinds = record.get("kinds")
+        if record["call"] == "callers_array_changed":
+            return {"error": "a changed caller's array is observed while the whole input is checked; rerun the check", "record": record}
+        cl, dt = build(inp, scale, variant, kinds=kinds)
         call = record["call"]
         out = {"call": call, "expected": record["expected"]}
         n = len(inp[0])
+        if kinds and record.get("query") is not None:
+            # the query point in an array of the recorded kind (row 0 of a one-row array)
+            qk = make_array(scaled([record["query"]], scale, kinds[1]), kinds[1])[0][0]
+        else:
+            qk = None
         if call in ("get_atoms", "get_atoms_single") and record.get("query") is not None:
-            q = np.array(record["query"], dtype=dt) / scale
+            q = qk if qk is not None else np.array(record["query"], dtype=dt) / scale
             got = cl.get_atoms(q, radius_of(record["rho"], scale))
             got = sorted(set(v for v in got.tolist() if v != -1))
             out.update(observed=got, mismatch=got != record["expected"])
             return out
         if call == "get_atoms_in_cells" and record.get("query") is not None:
-            q = np.array(record["query"], dtype=dt) / scale
+            q = qk if qk is not None else np.array(record["query"], dtype=dt) / scale
             got = sorted(set(v for v in cl.get_atoms_in_cells(q, record["c"]).tolist() if v != -1))
             out.update(observed=got, mismatch=not set(record["expected"]) <= set(got))
             return out
@@ -591,10 +1006,12 @@ def replay(record):
     if record.get("kind") == "event":
         tr = record["trace"]
         first = tr[0]
-        inp = [first["atoms"], first["cs"], first["box"], first["sel"]]
-        cl, dt = build(inp, first["scale"], first["variant"])
         e = record["event"]
         scale = first["scale"]
+        if isinstance(record["expected"], str):
+            return {"error": f"'{record['expected']}' is observed in the course of a session; rerun the check", "record": record}
+        inp = [first["atoms"], first["cs"], eff_box(first["form"]), first["sel"]]
+        cl, dt = build([first["atoms"], first["cs"], [], first["sel"]], scale, first["variant"], kinds=first["kinds"], form=first["form"])
         if e["op"] == "get_atoms":
             j = max(record["position"] - 1, 0)
             got = cl.get_atoms(np.array(e["q"][j], dtype=dt) / scale, radius_of(e["rho"][j], scale))
@@ -650,6 +1067,13 @@ def run(ctx):
         raise RuntimeError("C14CONST not printed by TLC")
     C = tla_to_py(consts[0].replace('"C14CONST",', "", 1))
     CONSTS = {"grid": C[:4], "few": [C[4]] + C[1:4]}
+    kk = tlc.printed_values(res.out, "C14KINDS")
+    if not kk:
+        raise RuntimeError("C14KINDS not printed by TLC")
+    KK = tla_to_py(kk[0].replace('"C14KINDS",', "", 1))
+    CONSTS["kinds"] = {"coord": KK[0][0], "coord_int": KK[0][1], "coord_refusable": KK[0][2],
+                       "radii": KK[1][0], "radii_int": KK[1][1], "radii_refusable": KK[1][2],
+                       "sel": KK[2][0], "sel_int": KK[2][1], "sel_refusable": KK[2][2]}
     path = prefix + ".dump" if os.path.exists(prefix + ".dump") else prefix
     states = parse_dump(path)
     if 2 * len(states) != res.distinct:
@@ -712,9 +1136,32 @@ def run(ctx):
         fn = os.path.join(d, f"s2_{lo}.json")
         with open(fn, "w") as f:
             json.dump(states[lo:lo + per], f)
-        items.append({"lo": lo, "file": fn, "light": bool(quick)})
-    results = helpers.run_pool(ctx, "harness.drivers.c14:exec_group", items, stage="S2",
-                               env={"C14_CONST": cfile}, item_timeout=600)
+        items.append({"type": "group", "lo": lo, "file": fn, "light": bool(quick)})
+    # ---- sessions: construction forms x kinds of caller's arrays x histories (CellSession.tla) ------
+    sprefix = os.path.join(d, "sessions")
+    sres = ctx.tlc("CellSession", "MCS.cfg" if quick else "MCS_thorough.cfg", stage="S1-session", dump=sprefix,
+                   workers=4, timeout=900 if quick else 3000)
+    spath = sprefix + ".dump" if os.path.exists(sprefix + ".dump") else sprefix
+    sstates = parse_session_dump(spath)
+    if len(sstates) != sres.distinct:
+        raise RuntimeError(f"session dump has {len(sstates)} states, TLC reported {sres.distinct}")
+    ncalls_max = max(len(st[3]) for st in sstates)
+    complete = [st for st in sstates if len(st[3]) == ncalls_max or (st[1][0] == "Rejected" and not st[3])]
+    complete.sort(key=lambda st: json.dumps(st))
+    sitems = []
+    for lo in range(0, len(complete), 400):
+        fn = os.path.join(d, f"sess_{lo}.json")
+        with open(fn, "w") as f:
+            json.dump(complete[lo:lo + 400], f)
+        sitems.append({"type": "sessions", "lo": lo, "file": fn})
+    # ---- S3 items (recorded sessions; validated by TLC below) -------------------------------------------
+    ntr = 60 if quick else 1200
+    length = 10 if quick else 14
+    seeds = [ctx.rng.randrange(1 << 30) for _ in range(ntr)]
+    titems = [{"type": "trace", "seed": s, "length": length, "nmax": 60 if k % 4 == 0 else 21} for k, s in enumerate(seeds)]
+    # one pool for the three kinds of items (every pool start costs ~30 interpreter starts)
+    pooled = run_items(ctx, items + sitems + titems, env={"C14_CONST": cfile})
+    results = pooled[:len(items)]
     calls = sum(r.get("calls", 0) for r in results)
     diag = sum(r.get("diag_cells", 0) for r in results)
     done = sum(r.get("inputs", 0) for r in results)
@@ -727,26 +1174,64 @@ def run(ctx):
         ctx.note(f"get_atoms_in_cells differs from the implementation-shaped grid prediction in {diag} rows (diagnostic: the grid layout of the code is not the modelled one)")
     if calls == 0:
         raise Vacuity("S2 executed no call")
+    kinds_used = {}
+    for r in results:
+        for key, v in (r.get("kinds_used") or {}).items():
+            kinds_used[key] = kinds_used.get(key, 0) + v
+    ctx.cov["s2_array_kinds"] = {name: {k.split(":")[1]: v for k, v in sorted(kinds_used.items()) if k.startswith(f"{pos}:")}
+                                 for pos, name in enumerate(("coordinates", "queries", "radii", "selection", "box"))}
+    KD = CONSTS["kinds"]
+    must_coord = {k for k, rf in zip(KD["coord"], KD["coord_refusable"]) if not rf}
+    for name in ("coordinates", "queries", "box"):
+        if set(ctx.cov["s2_array_kinds"][name]) != must_coord:
+            raise Vacuity(f"S2: {name} arrays never had the kinds {sorted(must_coord - set(ctx.cov['s2_array_kinds'][name]))}")
     mid = states[len(states) // 2]
     ctx.sample({"s2_input": mid[0], "expected_near_r4_unpacked": unpack_row(mid[1][0][0][4], len(CONSTS[mid[2]][0]))[:20],
                 "expected_pair_d2": mid[1][0][5][0]})
     ctx.log(f"S2: {done} inputs, {calls} calls executed against CellList")
+    # ---- S2, sessions: the complete histories of CellSession.tla ---------------------------------------
+    sresults = pooled[len(items):len(items) + len(sitems)]
+    scalls = sum(r.get("calls", 0) for r in sresults)
+    sdone = sum(r.get("sessions", 0) for r in sresults)
+    outcomes = {}
+    for r in sresults:
+        for key, v in (r.get("outcomes") or {}).items():
+            outcomes[key] = outcomes.get(key, 0) + v
+    forms_seen = {json.dumps(st[0][3]) for st in complete}
+    forms_override = sum(1 for st in complete if st[0][3][1] and st[0][3][2] and st[0][3][1] != st[0][3][2] and st[0][3][3])
+    kinds_seen = [sorted({st[0][4][i] for st in complete}) for i in range(5)]
+    hists_seen = {tuple(st[3]) for st in complete if st[3]}
+    ops_seen = {op for h in hists_seen for op in h}
+    ctx.traces_validated += sdone
+    ctx.evaluations += scalls
+    ctx.nontrivial += sum(1 for st in complete if st[3])
+    ctx.cov.update({"s2_sessions": sdone, "s2_session_calls": scalls, "s2_session_call_outcomes": dict(sorted(outcomes.items())),
+                    "s2_session_construction_forms": len(forms_seen), "s2_session_forms_explicit_box_overrides_own": forms_override,
+                    "s2_session_array_kinds": dict(zip(("coordinates", "queries", "radii", "selection", "box"), kinds_seen)),
+                    "s2_session_histories": len(hists_seen), "s2_session_history_length": ncalls_max})
+    want_hist = len(ops_seen) ** ncalls_max
+    if (sdone != len(complete) or scalls == 0 or forms_override == 0 or len(hists_seen) != want_hist
+            or set(kinds_seen[0]) != set(KD["coord"]) or set(kinds_seen[1]) != set(KD["coord"]) or set(kinds_seen[4]) != set(KD["coord"])
+            or set(kinds_seen[2]) != set(KD["radii"]) or set(kinds_seen[3]) != set(KD["sel"])
+            or not outcomes.get("construct_Rejected") or not outcomes.get("multi_ok")):
+        raise Vacuity(f"sessions: {sdone}/{len(complete)} replayed, {scalls} calls, {len(hists_seen)}/{want_hist} histories, "
+                      f"{forms_override} overriding forms, kinds {kinds_seen}, outcomes {outcomes}")
+    ctx.sample({"s2_session": complete[len(complete) // 3]})
+    ctx.log(f"S2-session: {sdone} complete histories of {ncalls_max} calls ({len(forms_seen)} construction forms, "
+            f"{sum(len(k) for k in kinds_seen)} array kinds), {scalls} calls executed against CellList")
     # ---- S3 ------------------------------------------------------------------------------
-    ntr = 60 if quick else 1200
-    length = 10 if quick else 14
-    seeds = [ctx.rng.randrange(1 << 30) for _ in range(ntr)]
-    titems = [{"seed": s, "length": length, "nmax": 60 if k % 4 == 0 else 21} for k, s in enumerate(seeds)]
-    tres = helpers.run_pool(ctx, "harness.drivers.c14:gen_trace", titems, stage="S3", item_timeout=120)
+    tres = pooled[len(items) + len(sitems):]
     traces = [r["events"] for r in tres if r and r.get("events")]
-    keep = ("op", "atoms", "cs", "box", "sel", "q", "rho", "c", "got", "pairs")
+    keep = ("op", "atoms", "cs", "box", "sel", "q", "rho", "c", "got", "pairs", "container", "own", "periodic", "kinds",
+            "scale", "out", "changed", "multi", "qk", "rk", "box_used")
     mms = []
     for chunk in helpers.chunked(traces, 400):
         mms_c = helpers.tlc_validate(ctx, chunk, keep=keep, timeout=1500)
         for m in mms_c:
             _tag, tid, l, pos, exp = m
             tr = chunk[tid - 1]
-            ctx.mismatch({"stage": "S3", "kind": "event", "trace": tr[:1] + [tr[l - 1]], "event": tr[l - 1],
-                          "position": pos, "expected": exp})
+            ctx.mismatch({"stage": "S3", "kind": "event", "op": tr[l - 1]["op"], "what": exp if isinstance(exp, str) else "answer",
+                          "trace": tr[:1] + [tr[l - 1]], "event": tr[l - 1], "position": pos, "expected": exp})
         mms += mms_c
     nev = sum(len(t) for t in traces)
     ctx.traces_validated += len(traces)
@@ -759,6 +1244,12 @@ def run(ctx):
         ctx.sample({"s3_events": [{k: v for k, v in e.items() if k != "atoms"} for e in traces[0][:3]]})
 
     def corrupt(tr):
+        if tr[0].get("corrupt") == "frame":
+            tr[1]["changed"] = ["radius"]          # a call that changed a caller's array
+            return True
+        if tr[0].get("corrupt") == "form":
+            tr[0].update(own=[], box=[], periodic=True)     # a periodic list without any box that answered
+            return True
         for e in tr[1:]:
             if e["op"] == "pairdist" and e["got"]:
                 e["got"][0] -= 1      # smaller than the minimum-image distance: wrong in every domain
@@ -789,6 +1280,25 @@ def run(ctx):
     ctx.cov["s3_pair_distance_events_periodic"] = npd_wrapped
     if not npd_wrapped:
         raise Vacuity("S3 recorded no pairwise distance matrix of a periodic system")
+    # coverage of the session dimensions in the recorded runs
+    def overrides(t0):
+        return bool(t0["periodic"] and t0["own"] and t0["box"] and t0["own"] != t0["box"])
+    s3cov = {
+        "constructions_refused": sum(1 for t in traces if t[0]["out"] != "ok"),
+        "forms_explicit_box_overrides_own": sum(1 for t in traces if overrides(t[0]) and len(t) > 1),
+        "forms_box_ignored_not_periodic": sum(1 for t in traces if not t[0]["periodic"] and (t[0]["own"] or t[0]["box"])),
+        "atomarray_containers": sum(1 for t in traces if t[0]["container"] == "aa"),
+        "coordinate_kinds": sorted({t[0]["kinds"][0] for t in traces}),
+        "query_kinds": sorted({e["qk"] for t in traces for e in t[1:] if e["op"] in ("get_atoms", "cells")}),
+        "radii_kinds": sorted({e["rk"] for t in traces for e in t[1:] if e["op"] == "get_atoms" and e["multi"]}),
+        "calls_refused": sum(1 for t in traces for e in t[1:] if e["out"] != "ok"),
+        "argument_arrays_used_again": sum(1 for t in traces for i, e in enumerate(t[1:]) if e["op"] in ("get_atoms", "cells")
+                                          and any(f["op"] == e["op"] and f.get("q", [])[:1] == e["q"][:1] and f["qk"] == e["qk"] for f in t[1:1 + i])),
+    }
+    ctx.cov["s3_sessions"] = s3cov
+    if not (s3cov["forms_explicit_box_overrides_own"] and s3cov["forms_box_ignored_not_periodic"] and s3cov["atomarray_containers"]
+            and s3cov["argument_arrays_used_again"] and len(s3cov["query_kinds"]) >= 4 and len(s3cov["radii_kinds"]) >= 2):
+        raise Vacuity(f"S3 sessions miss a dimension: {s3cov}")
     st = []
     for op in ("pairdist", "distadj"):
         for t in traces:
@@ -796,6 +1306,16 @@ def run(ctx):
             if ev:
                 st.append([t[0], ev[0]])
                 break
-    st += traces[:1]
-    helpers.binding_selftest(ctx, [[{k: e[k] for k in keep if k in e} for e in t] for t in st], corrupt)
+    st += [t for t in traces if len(t) > 1][:1]
+    # ... and the session dimensions: a changed caller's array, a construction that had to be refused
+    for t in traces:
+        ev = [e for e in t[1:] if e["op"] == "get_atoms" and e["out"] == "ok"]
+        if ev:
+            st.append([dict(t[0], corrupt="frame"), ev[0]])
+            break
+    for t in traces:
+        if len(t) > 1:
+            st.append([dict(t[0], corrupt="form"), t[1]])
+            break
+    helpers.binding_selftest(ctx, [[{k: e[k] for k in keep + ("corrupt",) if k in e} for e in t] for t in st], corrupt, max_traces=len(st))
     ctx.log(f"S3: {len(traces)} traces / {nev} events validated by TLC, {len(mms)} mismatches")
